@@ -38,6 +38,8 @@ theorem TMono.run (T : Target) (now : Nat) : TMono T (T.run now) := by
   split
   · exact TMono.refl T
   split
+  · exact TMono.refl T
+  split
   · exact TMono.endLoop T _ now
   · split
     · exact (⟨id, id, id, id⟩ : TMono T { T with handled := _, mbox := [] }).trans (TMono.exitWith _ _ now)
@@ -71,7 +73,7 @@ theorem isSome_ne_none {α} {o : Option α} (h : o.isSome = true) : o ≠ none :
 
 theorem endLoop_settled (T : Target) (r : Reason) (now : Nat) (hk : T.killReq = false) :
     ((T.endLoop r now).killReq = true → (T.endLoop r now).exit ≠ none) ∧
-    ((T.endLoop r now).closedAt ≠ none ∨ (T.endLoop r now).exit ≠ none) := by
+    ((T.endLoop r now).closedAt ≠ none ∨ (T.endLoop r now).exit ≠ none ∨ (T.endLoop r now).starting = true) := by
   unfold Target.endLoop
   split
   · exact ⟨fun h => by simp [hk] at h, .inl (by simp)⟩
@@ -79,17 +81,22 @@ theorem endLoop_settled (T : Target) (r : Reason) (now : Nat) (hk : T.killReq = 
 
 theorem run_settled (T : Target) (now : Nat) (hsc : T.stopping ≠ none → T.closedAt ≠ none) :
     ((T.run now).killReq = true → (T.run now).exit ≠ none) ∧
-    ((T.run now).stopReq ≠ none → (T.run now).closedAt ≠ none ∨ (T.run now).exit ≠ none) := by
+    ((T.run now).stopReq ≠ none →
+      (T.run now).closedAt ≠ none ∨ (T.run now).exit ≠ none ∨ (T.run now).starting = true) := by
   unfold Target.run
   by_cases h1 : T.exit.isSome = true
   · simp only [h1, ↓reduceIte]
-    exact ⟨fun _ => isSome_ne_none h1, fun _ => .inr (isSome_ne_none h1)⟩
+    exact ⟨fun _ => isSome_ne_none h1, fun _ => .inr (.inl (isSome_ne_none h1))⟩
   · simp only [h1, Bool.false_eq_true, ↓reduceIte]
     by_cases h2 : T.killReq = true
     · simp only [h2, ↓reduceIte]
-      exact ⟨fun _ => by simp [Target.exitWith], fun _ => .inr (by simp [Target.exitWith])⟩
+      exact ⟨fun _ => by simp [Target.exitWith], fun _ => .inr (.inl (by simp [Target.exitWith]))⟩
     · simp only [h2, Bool.false_eq_true, ↓reduceIte]
       have hk : T.killReq = false := by simpa using h2
+      by_cases h0 : T.starting = true
+      · simp only [h0, ↓reduceIte]
+        exact ⟨fun h => absurd h h2, fun _ => .inr (.inr trivial)⟩
+      simp only [h0, Bool.false_eq_true, ↓reduceIte]
       by_cases h3 : T.stopping.isSome = true
       · simp only [h3, ↓reduceIte]
         exact ⟨fun h => absurd h h2, fun _ => .inl (hsc (isSome_ne_none h3))⟩
@@ -104,7 +111,7 @@ theorem run_settled (T : Target) (now : Nat) (hsc : T.stopping ≠ none → T.cl
           cases hpo : T.poison with
           | some n =>
             simp only
-            exact ⟨fun _ => by simp [Target.exitWith], fun _ => .inr (by simp [Target.exitWith])⟩
+            exact ⟨fun _ => by simp [Target.exitWith], fun _ => .inr (.inl (by simp [Target.exitWith]))⟩
           | none =>
           simp only
           by_cases h4 : T.draining = true
@@ -157,11 +164,11 @@ theorem killAfter_fires' {s : State} (h : Inv s) (i : Nat) (τ : Timer) (a : Nat
 /-- a live, idle target (no request pending, not in `post_stop`, gate open) that is asked to stop
 exits with that reason the next time its task runs; a kill always wins -/
 theorem stop_then_run (T : Target) (r : Reason) (now : Nat) (he : T.exit = none) (hk : T.killReq = false)
-    (hs : T.stopReq = none) (hst : T.stopping = none) (hg : T.psGate = false) :
+    (hs : T.stopReq = none) (hst : T.stopping = none) (hg : T.psGate = false) (h0 : T.starting = false) :
     ((T.stop r).run now).exit = some (r, now) := by
   have e : T.stop r = { T with stopReq := some r } := by simp [Target.stop, he, hs]
   rw [e]
-  simp [Target.run, he, hk, hst, Target.endLoop, hg, Target.exitWith]
+  simp [Target.run, he, hk, hst, Target.endLoop, hg, Target.exitWith, h0]
 
 theorem kill_then_run (T : Target) (now : Nat) (he : T.exit = none) :
     (T.kill.run now).exit = some (.killed, now) := by
@@ -260,6 +267,8 @@ theorem AInv.step {s : State} (h : AInv s) (op : Op) : AInv (Timers.step s op) :
   | mark => exact @AInv.of_mono s _ h (TMono.refl _) same
   | dropHandle i => exact @AInv.of_mono s _ h (TMono.refl _) same
   | hold => exact @AInv.of_mono s _ h ⟨id, id, id, id⟩ same
+  | startHold => exact @AInv.of_mono s _ h ⟨id, id, id, id⟩ same
+  | started => exact @AInv.of_mono s _ h ⟨id, id, id, id⟩ same
   | fail =>
     refine @AInv.of_mono s _ h ?_ same
     show TMono s.target s.target.poisonMsg
@@ -329,7 +338,8 @@ theorem AInv.steps {s : State} (h : AInv s) (ops : List Op) : AInv (Timers.steps
 
 /-- no request is waiting for the target's task -/
 def Settled (T : Target) : Prop :=
-  (T.killReq = true → T.exit ≠ none) ∧ (T.stopReq ≠ none → T.closedAt ≠ none ∨ T.exit ≠ none)
+  (T.killReq = true → T.exit ≠ none) ∧
+    (T.stopReq ≠ none → T.closedAt ≠ none ∨ T.exit ≠ none ∨ T.starting = true)
 
 theorem settled_of_tail {s : State} (l : List Op) (ha : AInv s) :
     Settled (Timers.steps s (l ++ [.target, .mark])).target := by
@@ -342,7 +352,8 @@ theorem expand_tail (s : State) (m : MOp) :
     (∃ l, expand s m = l ++ [.target, .mark]) ∨
       (∃ op, expand s m = [op, .mark] ∧ (Timers.step s op).target.killReq = s.target.killReq ∧
         (Timers.step s op).target.stopReq = s.target.stopReq ∧ (Timers.step s op).target.exit = s.target.exit ∧
-        (Timers.step s op).target.closedAt = s.target.closedAt) := by
+        (Timers.step s op).target.closedAt = s.target.closedAt ∧
+        ((Timers.step s op).target.starting = s.target.starting ∨ (Timers.step s op).target.starting = true)) := by
   cases m with
   | create k p => exact .inl ⟨[.create k p, .fire s.timers.length], rfl⟩
   | createX k p => exact .inl ⟨[.createX k p, .fire s.timers.length], rfl⟩
@@ -358,24 +369,33 @@ theorem expand_tail (s : State) (m : MOp) :
   | psrelease => exact .inl ⟨[.psrelease], rfl⟩
   | fail => exact .inl ⟨[.fail], rfl⟩
   | advFail d => exact .inl ⟨[.tick d, .fail, .target] ++ fireAll s.timers.length, by simp [expand]⟩
-  | hold => exact .inr ⟨.hold, rfl, rfl, rfl, rfl, rfl⟩
-  | dropHandle i => exact .inr ⟨.dropHandle i, rfl, rfl, rfl, rfl, rfl⟩
+  | hold => exact .inr ⟨.hold, rfl, rfl, rfl, rfl, rfl, .inl rfl⟩
+  | startHold => exact .inr ⟨.startHold, rfl, rfl, rfl, rfl, rfl, .inr rfl⟩
+  | started => exact .inl ⟨[.started], rfl⟩
+  | dropHandle i => exact .inr ⟨.dropHandle i, rfl, rfl, rfl, rfl, rfl, .inl rfl⟩
   | abort i =>
     refine .inr ⟨.abort i, rfl, ?_⟩
     cases hτ : s.timers[i]? with
-    | none => rw [step_abort_none hτ]; exact ⟨rfl, rfl, rfl, rfl⟩
-    | some τ => rw [step_abort_some hτ]; split <;> exact ⟨rfl, rfl, rfl, rfl⟩
+    | none => rw [step_abort_none hτ]; exact ⟨rfl, rfl, rfl, rfl, .inl rfl⟩
+    | some τ => rw [step_abort_some hτ]; split <;> exact ⟨rfl, rfl, rfl, rfl, .inl rfl⟩
 
 theorem settled_mstep {s : State} (ha : AInv s) (hs : Settled s.target) (m : MOp) :
     Settled (mstep s m).target := by
   unfold Timers.mstep
-  rcases expand_tail s m with ⟨l, e⟩ | ⟨op, e, e1, e2, e3, e4⟩
+  rcases expand_tail s m with ⟨l, e⟩ | ⟨op, e, e1, e2, e3, e4, e5⟩
   · rw [e]; exact settled_of_tail l ha
   · rw [e]
     show Settled (Timers.step (Timers.step s op) .mark).target
     show Settled (Timers.step s op).target
     unfold Settled
-    rw [e1, e2, e3, e4]; exact hs
+    rw [e1, e2, e3, e4]
+    refine ⟨hs.1, fun h => ?_⟩
+    rcases hs.2 h with a | b | c
+    · exact .inl a
+    · exact .inr (.inl b)
+    · rcases e5 with e5 | e5
+      · exact .inr (.inr (e5.trans c))
+      · exact .inr (.inr e5)
 
 theorem ainv_mstep {s : State} (ha : AInv s) (m : MOp) : AInv (mstep s m) := ha.steps _
 
@@ -416,17 +436,20 @@ theorem stopsOk_of {s : State} (hi : Inv s) (ha : AInv s) (hs : Settled s.target
           · exact absurd ⟨hk1, hn⟩ hk
         · exact .inl hk1
       simp [this]
-  have c2 : (!(τ.kind == .exitAfter && !τ.sentAt.isEmpty) || s.target.closedAt.isSome) = true := by
+  have c2 : (!(τ.kind == .exitAfter && !τ.sentAt.isEmpty) || s.target.closedAt.isSome || s.target.starting) = true := by
     by_cases hk : τ.kind = .exitAfter ∧ τ.sentAt ≠ []
-    · have hx : s.target.closedAt ≠ none := by
+    · have hx : s.target.closedAt ≠ none ∨ s.target.starting = true := by
         rcases ha.exitA τ hτ hk.1 hk.2 with h | h
-        · rcases hs.2 h with h' | h'
-          · exact h'
-          · exact hexit_closed h'
-        · exact hexit_closed h
-      cases he : s.target.closedAt with
-      | none => exact absurd he hx
-      | some x => simp
+        · rcases hs.2 h with h' | h' | h'
+          · exact .inl h'
+          · exact .inl (hexit_closed h')
+          · exact .inr h'
+        · exact .inl (hexit_closed h)
+      rcases hx with hx | hx
+      · cases he : s.target.closedAt with
+        | none => exact absurd he hx
+        | some x => simp
+      · simp [hx]
     · have : (τ.kind == .exitAfter && !τ.sentAt.isEmpty) = false := by
         simp only [Bool.and_eq_false_iff, beq_eq_false_iff_ne, ne_eq, Bool.not_eq_false', List.isEmpty_iff]
         by_cases hk1 : τ.kind = .exitAfter
@@ -439,5 +462,7 @@ theorem stopsOk_of {s : State} (hi : Inv s) (ha : AInv s) (hs : Settled s.target
   rw [c1, c2]; rfl
 
 theorem settled_init : Settled init.target := ⟨(fun h => by cases h), (fun h => absurd rfl h)⟩
+
+theorem or3 {A B C : Prop} (h : A ∨ B) : A ∨ B ∨ C := h.elim .inl (fun b => .inr (.inl b))
 
 end Timers
